@@ -301,11 +301,16 @@ def run_render_pair(prefix, specs):
     from ..core import vthreads as VT
     from ..core.runner import REPO
     from baize.datastructures import Cookie
+    str(Cookie("earlier", "x", expires=D_OLD))  # (what the process rendered last before these two)
     jobs = [lambda i=i: (str(Cookie(*specs[i][0], **specs[i][1])), bytes(Cookie(*specs[i][0], **specs[i][1]))) for i in (0, 1)]
     return VT.run_thread_pair(prefix, jobs, [os.path.join(REPO, "baize", "datastructures.py")])
 
 
-RENDER_SPECS = [(("sid", "abc"), {}), (("theme", "da;rk"), {"path": "/app", "secure": True, "httponly": True}), (("t", ""), {"max_age": 0, "samesite": "none", "domain": "example.org"})]
+import datetime as _dt
+D_OLD, D_NEW = _dt.datetime(2026, 9, 27, 3, 25, 23), _dt.datetime(2026, 9, 27, 5, 8, 43, 250000)
+RENDER_SPECS = [(("sid", "abc"), {}), (("theme", "da;rk"), {"path": "/app", "secure": True, "httponly": True}), (("t", ""), {"max_age": 0, "samesite": "none", "domain": "example.org"}),
+                # cookies that expire within the same second (set by two requests of the same moment), after a cookie with another expiry
+                (("keep", "1"), {"expires": D_NEW, "max_age": 7200}), (("other", "2"), {"expires": D_NEW.replace(microsecond=900000)})]
 
 
 def render_pairs(r, tier, only=None):
@@ -323,7 +328,7 @@ def render_pairs(r, tier, only=None):
                 r.count("evaluations")
                 outs.add(repr(x.obs["results"]))
                 if x.obs["stuck"] or list(x.obs["results"]) != alone:
-                    r.violation("render-pair", {"kind": "renderpair", "specs": [[list(a), kw] for a, kw in specs], "schedule": list(x.choices)},
+                    r.violation("render-pair", {"kind": "renderpair", "spec_index": [i, j], "specs": [[list(a), {k: str(v) for k, v in kw.items()}] for a, kw in specs], "schedule": list(x.choices)},
                                 f"two threads rendering cookies {[a for a, _ in specs]} at the same time, schedule {x.obs['trace'][-12:]}: {x.obs['results']!r:.200}; alone {alone!r:.200}")
             dfs(lambda prefix: run_render_pair(prefix, specs), on_exec, bound=2 if tier == "quick" else 3)
             r.count("distinct_nontrivial")
@@ -485,7 +490,7 @@ def replay(w):
         roundtrip(r, w["name"], w["value"], "replay", full=w.get("full", False))
     elif w["kind"] == "renderpair":
         from baize.datastructures import Cookie
-        specs = [(tuple(a), kw) for a, kw in w["specs"]]
+        specs = [RENDER_SPECS[k] for k in w["spec_index"]] if "spec_index" in w else [(tuple(a), kw) for a, kw in w["specs"]]
         alone = [(str(Cookie(*a, **kw)), bytes(Cookie(*a, **kw))) for a, kw in specs]
         x = run_render_pair(list(w["schedule"]), specs)
         bad = bool(x.obs["stuck"]) or list(x.obs["results"]) != alone
